@@ -66,6 +66,26 @@ namespace embedded_pairing::bls12_381 {
 
     /* Procedures for encoding/decoding. */
 
+    /*
+     * Checks that every big-endian base field coordinate in an encoding is
+     * fully reduced (less than the modulus). The three flag bits are only
+     * meaningful in the first byte of the encoding, so they are masked off
+     * there; in any later coordinate they make the value too large.
+     */
+    static bool coordinates_are_reduced(const uint8_t* data, size_t length) {
+        for (size_t offset = 0; offset != length; offset += sizeof(Fq)) {
+            BigInt<fq_bits> coordinate;
+            coordinate.read_big_endian(&data[offset]);
+            if (offset == 0) {
+                coordinate.bytes[BigInt<fq_bits>::byte_length - 1] &= 0x1F;
+            }
+            if (BigInt<fq_bits>::compare(coordinate, fq_modulus) != -1) {
+                return false;
+            }
+        }
+        return true;
+    }
+
     template <typename Affine, bool compressed>
     void Encoding<Affine, compressed>::encode(const Affine& g) {
         if (g.is_zero()) {
@@ -108,6 +128,10 @@ namespace embedded_pairing::bls12_381 {
             }
             g.copy(Affine::zero);
             return true;
+        }
+
+        if (checked && !coordinates_are_reduced(this->data, sizeof(this->data))) {
+            return false;
         }
 
         /* The "read_big_endian" method masks off the three control bits. */
